@@ -331,6 +331,16 @@ func (w *seqWorld) exec1(r *hx.Run, op string, f []string, arg func(int) string,
 			ret := w.set.Replace(ds.NewSet(parseInts(arg(1))...))
 
 			return showInts(ret.ToSlice()) + " " + w.deliveredSummary(r, op)
+		case "replace-self":
+			// the argument is the set itself: Replace must work on a private snapshot of its argument
+			ret := w.set.Replace(w.set)
+
+			return showInts(ret.ToSlice()) + " " + w.deliveredSummary(r, op)
+		case "replace-view":
+			// ... or a read-only view of it
+			ret := w.set.Replace(w.set.ReadOnly())
+
+			return showInts(ret.ToSlice()) + " " + w.deliveredSummary(r, op)
 		case "sub":
 			i := len(w.subs)
 			w.subs = append(w.subs, &seqSub{fold: map[int]bool{}})
@@ -466,6 +476,10 @@ func genSeqCase(rng *hx.Rng, n int) []string {
 				ops = append(ops, "compute "+genSubset(rng, 5)+" "+genSubset(rng, 5))
 			case x < 63:
 				ops = append(ops, fmt.Sprintf("toggle %d", rng.Intn(5)))
+			case x < 67:
+				ops = append(ops, "replace-self")
+			case x < 70:
+				ops = append(ops, "replace-view")
 			case x < 78:
 				ops = append(ops, "replace "+genSubset(rng, 5))
 			case x < 93:
